@@ -501,9 +501,14 @@ func (ec *evalCtx) specCall(call *ast.CallExpr) Value {
 		return sv.F["Underlying"]
 	case "dyntype":
 		need(2)
-		iv, ok := arg(0).(*IfaceV)
+		a0 := arg(0)
+		if a0 == nil {
+			// an element of a slice that is known to be empty: nothing is known (and nothing can be asked) about it
+			return Var(ec.e().fresher.name("dyntype.none"), SBool)
+		}
+		iv, ok := a0.(*IfaceV)
 		if !ok {
-			panic(unsupported("dyntype of %T", arg(0)))
+			panic(unsupported("dyntype of %T", a0))
 		}
 		t := ec.e().evalTypeExpr(ec.pkg, ec.typePos(), call.Args[1])
 		return Eq(iv.Tag, Int(ec.e().typeTag(types.TypeString(t, nil))))
